@@ -28,6 +28,9 @@ MAXCP = 0x110000
 
 
 def repo_root(ctx):
+    r = getattr(ctx, "repo_root", None)
+    if r and os.path.isdir(r):
+        return r
     return ctx.db.meta["wac_parser"]["cwd"]
 
 
